@@ -304,7 +304,7 @@ def handler_run(vc):
         vc.check('failure/host-not-reported-up', _count(log, 'on_up') == 0 and _count(log, 'on_add') == 0)
 
 
-@harness('C25', 'signal_connection_failure', functions=[CL + 'signal_connection_failure'])
+@harness('C25', 'signal_connection_failure', functions=[CL + 'signal_connection_failure'], native='contracts.native.c25:replay')
 def signal_failure(vc):
     """ensures a connection failure leads to the down handling exactly when the conviction policy convicts the host"""
     cl, host, sess, log = _world(vc)
